@@ -134,15 +134,17 @@ class C15(Property):
         "non-trivial = layouts differ or geometry perturbed; distinct by (pair, mode)" % len(PAIRS)
     )
     assumptions = ("coordinates of distinct elements differ by >= 0.25 so the encoding is injective", "crs is None on both sides")
-    cases = {"quick": 8000, "thorough": len(PAIRS) + 6000}
-    min_nontrivial = {"quick": 5000, "thorough": 30000}
+    cases = {"quick": 8000, "thorough": 2 * len(PAIRS) + 20000}
+    min_nontrivial = {"quick": 5000, "thorough": 50000}
     exhaustive = {"quick": False, "thorough": True}
 
     def gen(self, rnd, i, tier):
-        npairs = 2000 if tier == "quick" else len(PAIRS)
+        npairs = 2000 if tier == "quick" else 2 * len(PAIRS)
         if i < npairs:
-            a, b = PAIRS[i] if tier == "thorough" else rnd.choice(PAIRS)
-            return dict(kind="same", a=a, b=b, masked=rnd.random() < 0.5, mseed=rnd.randrange(1 << 30))
+            # thorough: every ordered pair twice, once with a plain and once with a masked payload
+            a, b = PAIRS[i // 2] if tier == "thorough" else rnd.choice(PAIRS)
+            masked = bool(i % 2) if tier == "thorough" else rnd.random() < 0.5
+            return dict(kind="same", a=a, b=b, masked=masked, mseed=rnd.randrange(1 << 30))
         a, _ = rnd.choice(PAIRS)
         b, how = _perturb(rnd, a)
         lay = rnd.choice(list(mg.layouts(len(b["dims"]))))
